@@ -7,6 +7,7 @@
    C18, C13, C16 — and are aggregated here by the integrator.) *)
 From AL Require Import Base.Str Wf.Scalars Wf.ScalarsProofs Wf.ScalarExit.
 From Coq Require Import ZArith.
+From AL Require Gen.GenPanicSites Wf.PanicSites.
 
 (* every value parser at once: for every well-formed node, none of them
    panics ([np m] is [forall s, m <> Panic s]); the single statements follow *)
@@ -224,3 +225,12 @@ Theorem C01_snippet_no_panic : forall rw sw e src,
   Render.pretty_print rw sw e src <> Render.Panic /\ Render.template_fields rw sw e src <> Render.Panic.
 Proof. exact RenderProofs.snippet_no_panic. Qed.
 Print Assumptions C01_snippet_no_panic.
+
+(* the places that can panic by construction: every explicit panic(...) call, every type assertion
+   without the comma-ok form and every goroutine start of the source (re-listed on every run,
+   Gen/GenPanicSites.v) is a known one — the default branch of a switch over a closed set, an
+   assertion on an entry of the built-in variable table, the two errgroup.Go calls *)
+Theorem C01_panic_sites_are_known : forall s, In s GenPanicSites.panic_sites ->
+  exists c, In (s, c) PanicSites.allowed.
+Proof. exact PanicSites.panic_sites_known. Qed.
+Print Assumptions C01_panic_sites_are_known.
